@@ -1,5 +1,5 @@
 (* What name_change / hostname_change (Model/Names.v) do, on all byte strings. *)
-From Coq Require Import List NArith Bool Lia.
+From Coq Require Import List NArith Bool Lia Arith PeanoNat.
 From Mdns Require Import Bytes ParamsRegistry Names RegistryParamsPinned.
 Import ListNotations.
 Open Scope N_scope.
@@ -159,6 +159,70 @@ Proof.
   rewrite parse_u32_digits; auto; rewrite Hv; auto.
 Qed.
 
+(* ---- the first label ------------------------------------------------------------------------------------ *)
+
+(* a label text without dots and backslashes *)
+Definition plain (x : bytes) : Prop := no_byte C_DOT x /\ no_byte C_BSL x.
+
+Lemma split_first_label_app x rest :
+  plain x -> starts_dot_or_empty rest -> split_first_label (x ++ rest) = (x, rest).
+Proof.
+  intros [Hd Hb] Hr. induction x as [|c x IH]; simpl.
+  - destruct Hr as [->|[t ->]]; reflexivity.
+  - inversion Hd; subst. inversion Hb; subst.
+    destruct (c =? C_DOT) eqn:E; [apply N.eqb_eq in E; contradiction|].
+    destruct (c =? C_BSL) eqn:E2; [apply N.eqb_eq in E2; contradiction|].
+    rewrite IH by assumption. reflexivity.
+Qed.
+
+(* ---- label_with_suffix ------------------------------------------------------------------------------------ *)
+
+Lemma back_boundary_le f base : forall e, (back_boundary f base e <= e)%nat.
+Proof.
+  induction f as [|f IH]; intros e; simpl; [lia|].
+  destruct (Nat.eqb e (length base)); [lia|]. destruct e as [|e']; [lia|].
+  destruct (nth_error base (S e')); [|lia]. destruct (is_cont n); [|lia].
+  specialize (IH e'). lia.
+Qed.
+
+Lemma removelast_length {A} (l : list A) : (length (removelast l) <= length l)%nat.
+Proof. induction l as [|a [|b t] IH]; simpl in *; lia. Qed.
+
+(* the result always fits a DNS label *)
+Lemma label_with_suffix_len base suffix :
+  (length suffix <= 63)%nat -> (length (label_with_suffix base suffix) <= 63)%nat.
+Proof.
+  intros Hs. unfold label_with_suffix.
+  set (e0 := Nat.min (length base) (63 - length suffix)).
+  pose proof (back_boundary_le e0 base e0) as Hb.
+  set (e := back_boundary e0 base e0) in *.
+  assert (Hk : (length (firstn e base) <= e)%nat) by apply firstn_le_length.
+  rewrite app_length.
+  destruct (Nat.ltb e (length base) && Nat.odd (lead_bsl (rev (firstn e base)))).
+  - pose proof (removelast_length (firstn e base)). unfold e0 in *. lia.
+  - unfold e0 in *. lia.
+Qed.
+
+(* nothing is cut when base and suffix fit together *)
+Lemma label_with_suffix_fits base suffix :
+  (length base + length suffix <= 63)%nat -> label_with_suffix base suffix = base ++ suffix.
+Proof.
+  intros H. unfold label_with_suffix.
+  assert (E : Nat.min (length base) (63 - length suffix) = length base) by lia. rewrite E.
+  assert (B : forall f, back_boundary f base (length base) = length base).
+  { intros f. destruct f; simpl; [reflexivity|]. rewrite Nat.eqb_refl. reflexivity. }
+  rewrite B, firstn_all, Nat.ltb_irrefl. reflexivity.
+Qed.
+
+Lemma dec_fuel_length f : forall n acc, (length (dec_fuel f n acc) <= f + length acc)%nat.
+Proof.
+  induction f as [|f IH]; intros n acc; simpl; [lia|].
+  destruct (n <? 10); simpl; [lia|]. specialize (IH (n / 10) ((48 + n mod 10) :: acc)). simpl in IH. lia.
+Qed.
+
+Lemma dec_length n : (length (dec n) <= 40)%nat.
+Proof. unfold dec. pose proof (dec_fuel_length 40 n []). simpl in *. lia. Qed.
+
 (* ---- name_change ------------------------------------------------------------------------------------------- *)
 
 Ltac norm_app := repeat (rewrite <- app_assoc); cbn [app]; repeat (rewrite <- app_assoc); cbn [app]; reflexivity.
@@ -167,11 +231,11 @@ Definition SUFFIX2 : bytes := [C_SP; C_LP; 50; C_RP].      (* " (2)" *)
 
 (* a first label without " (" gets " (2)" appended *)
 Lemma name_change_fresh x rest :
-  no_byte C_DOT x -> starts_dot_or_empty rest -> rsplit2 C_SP C_LP x = None ->
+  plain x -> starts_dot_or_empty rest -> rsplit2 C_SP C_LP x = None -> (length x + 4 <= 63)%nat ->
   name_change (x ++ rest) = x ++ SUFFIX2 ++ rest.
 Proof.
-  intros Hx Hr Hp. unfold name_change. rewrite split_first_app by assumption.
-  rewrite Hp. rewrite <- app_assoc. reflexivity.
+  intros Hx Hr Hp Hl. unfold name_change. rewrite split_first_label_app by assumption.
+  rewrite Hp. rewrite label_with_suffix_fits by (simpl; lia). unfold SUFFIX2. norm_app.
 Qed.
 
 Lemma paren_tail_none ds : all_digits ds -> rsplit2 C_SP C_LP (C_LP :: ds ++ [C_RP]) = None.
@@ -182,60 +246,67 @@ Proof.
   - constructor; [unfold C_RP, C_SP; lia|constructor].
 Qed.
 
+Lemma plain_with_paren x ds : plain x -> all_digits ds -> plain (x ++ [C_SP; C_LP] ++ ds ++ [C_RP]).
+Proof.
+  intros [Hd Hb] Hds. split; apply Forall_app; split; try assumption.
+  - constructor; [unfold C_SP, C_DOT; lia|]. constructor; [unfold C_LP, C_DOT; lia|]. apply Forall_app. split.
+    + apply (digits_no_byte C_DOT ds Hds). unfold C_DOT. lia.
+    + constructor; [unfold C_RP, C_DOT; lia|constructor].
+  - constructor; [unfold C_SP, C_BSL; lia|]. constructor; [unfold C_LP, C_BSL; lia|]. apply Forall_app. split.
+    + apply (digits_no_byte C_BSL ds Hds). unfold C_BSL. lia.
+    + constructor; [unfold C_RP, C_BSL; lia|constructor].
+Qed.
+
 (* "x (n)" counts up to "x (n+1)", whatever x is (it may itself contain " (") *)
 Lemma name_change_increment x ds rest :
-  no_byte C_DOT x -> starts_dot_or_empty rest ->
-  ds <> [] -> all_digits ds -> digits_val ds < 4294967295 ->
+  plain x -> starts_dot_or_empty rest ->
+  ds <> [] -> all_digits ds -> digits_val ds < 4294967295 -> (length x <= 20)%nat ->
   name_change (x ++ [C_SP; C_LP] ++ ds ++ [C_RP] ++ rest)
   = x ++ [C_SP; C_LP] ++ dec (digits_val ds + 1) ++ [C_RP] ++ rest.
 Proof.
-  intros Hx Hr Hne Hd Hv. unfold name_change.
+  intros Hx Hr Hne Hd Hv Hl. unfold name_change.
   replace (x ++ [C_SP; C_LP] ++ ds ++ [C_RP] ++ rest) with ((x ++ [C_SP; C_LP] ++ ds ++ [C_RP]) ++ rest)
     by (rewrite <- !app_assoc; reflexivity).
-  rewrite split_first_app; [| |assumption].
-  2:{ apply Forall_app. split; [assumption|]. constructor; [unfold C_SP, C_DOT; lia|].
-      constructor; [unfold C_LP, C_DOT; lia|]. apply Forall_app. split.
-      - apply (digits_no_byte C_DOT ds Hd). unfold C_DOT. lia.
-      - constructor; [unfold C_RP, C_DOT; lia|constructor]. }
+  rewrite split_first_label_app; [|apply plain_with_paren; assumption|assumption].
   change (x ++ [C_SP; C_LP] ++ ds ++ [C_RP]) with (x ++ C_SP :: C_LP :: (ds ++ [C_RP])).
   rewrite rsplit2_last by (apply paren_tail_none; assumption).
   rewrite find1_end by (apply (digits_no_byte C_RP ds Hd); unfold C_RP; lia).
   rewrite parse_u32_digits by (auto; lia).
   unfold name_suffix_can_increment. destruct suffix_step_pinned as [-> _].
   assert (digits_val ds + 1 <=? 4294967295 = true) as -> by (apply N.leb_le; lia).
-  rewrite <- !app_assoc. reflexivity.
+  rewrite label_with_suffix_fits.
+  - norm_app.
+  - pose proof (dec_length (digits_val ds + 1)). rewrite !app_length. simpl. lia.
 Qed.
 
-(* at u32::MAX the number is left alone and " (2)" is appended (checked_add fails) *)
+(* at 4294967295 the number cannot grow: ' (2)' is appended instead (no overflow) *)
 Lemma name_change_at_max x ds rest :
-  no_byte C_DOT x -> starts_dot_or_empty rest ->
-  ds <> [] -> all_digits ds -> digits_val ds = 4294967295 ->
+  plain x -> starts_dot_or_empty rest ->
+  ds <> [] -> all_digits ds -> digits_val ds = 4294967295 -> (length x + length ds + 7 <= 63)%nat ->
   name_change (x ++ [C_SP; C_LP] ++ ds ++ [C_RP] ++ rest)
   = x ++ [C_SP; C_LP] ++ ds ++ [C_RP] ++ SUFFIX2 ++ rest.
 Proof.
-  intros Hx Hr Hne Hd Hv. unfold name_change.
+  intros Hx Hr Hne Hd Hv Hl. unfold name_change.
   replace (x ++ [C_SP; C_LP] ++ ds ++ [C_RP] ++ rest) with ((x ++ [C_SP; C_LP] ++ ds ++ [C_RP]) ++ rest)
     by (rewrite <- !app_assoc; reflexivity).
-  rewrite split_first_app; [| |assumption].
-  2:{ apply Forall_app. split; [assumption|]. constructor; [unfold C_SP, C_DOT; lia|].
-      constructor; [unfold C_LP, C_DOT; lia|]. apply Forall_app. split.
-      - apply (digits_no_byte C_DOT ds Hd). unfold C_DOT. lia.
-      - constructor; [unfold C_RP, C_DOT; lia|constructor]. }
+  rewrite split_first_label_app; [|apply plain_with_paren; assumption|assumption].
   change (x ++ [C_SP; C_LP] ++ ds ++ [C_RP]) with (x ++ C_SP :: C_LP :: (ds ++ [C_RP])).
   rewrite rsplit2_last by (apply paren_tail_none; assumption).
   rewrite find1_end by (apply (digits_no_byte C_RP ds Hd); unfold C_RP; lia).
   rewrite parse_u32_digits by (auto; lia).
   unfold name_suffix_can_increment. destruct suffix_step_pinned as [-> _]. rewrite Hv.
   change (4294967295 + 1 <=? 4294967295) with false. cbv iota.
-  unfold SUFFIX2. norm_app.
+  rewrite label_with_suffix_fits.
+  - unfold SUFFIX2. norm_app.
+  - rewrite !app_length. simpl. rewrite app_length. simpl. lia.
 Qed.
 
 (* so renaming twice counts 'x' -> 'x (2)' -> 'x (3)' *)
 Lemma name_change_twice x rest :
-  no_byte C_DOT x -> starts_dot_or_empty rest -> rsplit2 C_SP C_LP x = None ->
+  plain x -> starts_dot_or_empty rest -> rsplit2 C_SP C_LP x = None -> (length x <= 20)%nat ->
   name_change (name_change (x ++ rest)) = x ++ [C_SP; C_LP; 51; C_RP] ++ rest.
 Proof.
-  intros Hx Hr Hp. rewrite name_change_fresh by assumption.
+  intros Hx Hr Hp Hl. rewrite name_change_fresh by (try assumption; lia).
   change (x ++ SUFFIX2 ++ rest) with (x ++ [C_SP; C_LP] ++ [50] ++ [C_RP] ++ rest).
   rewrite name_change_increment; try assumption; try discriminate; try reflexivity.
 Qed.
@@ -243,129 +314,107 @@ Qed.
 (* ---- hostname_change --------------------------------------------------------------------------------------------- *)
 
 Lemma hostname_change_fresh x rest :
-  no_byte C_DOT x -> starts_dot_or_empty rest -> no_byte C_HY x ->
+  plain x -> starts_dot_or_empty rest -> no_byte C_HY x -> (length x + 2 <= 63)%nat ->
   hostname_change (x ++ rest) = x ++ [C_HY; 50] ++ rest.
 Proof.
-  intros Hx Hr Hh. unfold hostname_change. rewrite split_first_app by assumption.
-  rewrite rsplit1_none by assumption. rewrite <- app_assoc. reflexivity.
+  intros Hx Hr Hh Hl. unfold hostname_change. rewrite split_first_label_app by assumption.
+  rewrite rsplit1_none by assumption. rewrite label_with_suffix_fits by (simpl; lia). norm_app.
+Qed.
+
+Lemma plain_with_hyphen x ds : plain x -> all_digits ds -> plain (x ++ [C_HY] ++ ds).
+Proof.
+  intros [Hd Hb] Hds. split; apply Forall_app; split; try assumption.
+  - constructor; [unfold C_HY, C_DOT; lia|]. apply (digits_no_byte C_DOT ds Hds). unfold C_DOT. lia.
+  - constructor; [unfold C_HY, C_BSL; lia|]. apply (digits_no_byte C_BSL ds Hds). unfold C_BSL. lia.
 Qed.
 
 Lemma hostname_change_increment x ds rest :
-  no_byte C_DOT x -> starts_dot_or_empty rest ->
-  ds <> [] -> all_digits ds -> digits_val ds < 4294967295 ->
+  plain x -> starts_dot_or_empty rest ->
+  ds <> [] -> all_digits ds -> digits_val ds < 4294967295 -> (length x <= 20)%nat ->
   hostname_change (x ++ [C_HY] ++ ds ++ rest) = x ++ [C_HY] ++ dec (digits_val ds + 1) ++ rest.
 Proof.
-  intros Hx Hr Hne Hd Hv. unfold hostname_change.
+  intros Hx Hr Hne Hd Hv Hl. unfold hostname_change.
   replace (x ++ [C_HY] ++ ds ++ rest) with ((x ++ [C_HY] ++ ds) ++ rest) by (rewrite <- !app_assoc; reflexivity).
-  rewrite split_first_app; [| |assumption].
-  2:{ apply Forall_app. split; [assumption|]. constructor; [unfold C_HY, C_DOT; lia|].
-      apply (digits_no_byte C_DOT ds Hd). unfold C_DOT. lia. }
+  rewrite split_first_label_app; [|apply plain_with_hyphen; assumption|assumption].
   change (x ++ [C_HY] ++ ds) with (x ++ C_HY :: ds).
   rewrite rsplit1_last by (apply (digits_no_byte C_HY ds Hd); unfold C_HY; lia).
   rewrite parse_u32_digits by (auto; lia).
   unfold host_suffix_can_increment. destruct suffix_step_pinned as [_ ->].
   assert (digits_val ds + 1 <=? 4294967295 = true) as -> by (apply N.leb_le; lia).
-  rewrite <- !app_assoc. reflexivity.
+  rewrite label_with_suffix_fits.
+  - norm_app.
+  - pose proof (dec_length (digits_val ds + 1)). rewrite !app_length. simpl. lia.
 Qed.
 
 Lemma hostname_change_at_max x ds rest :
-  no_byte C_DOT x -> starts_dot_or_empty rest ->
-  ds <> [] -> all_digits ds -> digits_val ds = 4294967295 ->
+  plain x -> starts_dot_or_empty rest ->
+  ds <> [] -> all_digits ds -> digits_val ds = 4294967295 -> (length x + length ds + 3 <= 63)%nat ->
   hostname_change (x ++ [C_HY] ++ ds ++ rest) = x ++ [C_HY] ++ ds ++ [C_HY; 50] ++ rest.
 Proof.
-  intros Hx Hr Hne Hd Hv. unfold hostname_change.
+  intros Hx Hr Hne Hd Hv Hl. unfold hostname_change.
   replace (x ++ [C_HY] ++ ds ++ rest) with ((x ++ [C_HY] ++ ds) ++ rest) by (rewrite <- !app_assoc; reflexivity).
-  rewrite split_first_app; [| |assumption].
-  2:{ apply Forall_app. split; [assumption|]. constructor; [unfold C_HY, C_DOT; lia|].
-      apply (digits_no_byte C_DOT ds Hd). unfold C_DOT. lia. }
+  rewrite split_first_label_app; [|apply plain_with_hyphen; assumption|assumption].
   change (x ++ [C_HY] ++ ds) with (x ++ C_HY :: ds).
   rewrite rsplit1_last by (apply (digits_no_byte C_HY ds Hd); unfold C_HY; lia).
   rewrite parse_u32_digits by (auto; lia).
   unfold host_suffix_can_increment. destruct suffix_step_pinned as [_ ->]. rewrite Hv.
   change (4294967295 + 1 <=? 4294967295) with false. cbv iota.
-  norm_app.
+  rewrite label_with_suffix_fits.
+  - norm_app.
+  - rewrite !app_length. simpl. lia.
 Qed.
 
 Lemma hostname_change_twice x rest :
-  no_byte C_DOT x -> starts_dot_or_empty rest -> no_byte C_HY x ->
+  plain x -> starts_dot_or_empty rest -> no_byte C_HY x -> (length x <= 20)%nat ->
   hostname_change (hostname_change (x ++ rest)) = x ++ [C_HY; 51] ++ rest.
 Proof.
-  intros Hx Hr Hh. rewrite hostname_change_fresh by assumption.
+  intros Hx Hr Hh Hl. rewrite hostname_change_fresh by (try assumption; lia).
   change (x ++ [C_HY; 50] ++ rest) with (x ++ [C_HY] ++ [50] ++ rest).
   rewrite hostname_change_increment; try assumption; try discriminate; try reflexivity.
 Qed.
 
-(* ---- the rest of the name is kept; the first label can outgrow 63 bytes -------------------------------------------------- *)
+(* ---- for EVERY input: only the first label changes, and the new first label fits 63 bytes ------------------------- *)
 
-(* without a backslash in front of the first dot, "first label" and "first piece" coincide *)
-Lemma split_first_label_plain s :
-  no_byte C_BSL (fst (split_first s)) -> split_first_label s = split_first s.
+Lemma name_change_fits s :
+  exists nf, name_change s = nf ++ snd (split_first_label s) /\ (length nf <= 63)%nat.
 Proof.
-  induction s as [|c s IH]; simpl; [reflexivity|].
-  destruct (c =? C_DOT) eqn:E; [reflexivity|].
-  destruct (split_first s) as [a r] eqn:Es. simpl. intros H. inversion H; subst.
-  destruct (c =? C_BSL) eqn:Eb; [apply N.eqb_eq in Eb; contradiction|].
-  rewrite IH by assumption. reflexivity.
+  unfold name_change. destruct (split_first_label s) as [first rest]. simpl.
+  assert (D : (length (label_with_suffix first [C_SP; C_LP; 50; C_RP]) <= 63)%nat)
+    by (apply label_with_suffix_len; simpl; lia).
+  destruct (rsplit2 C_SP C_LP first) as [[base q]|]; [|eexists; split; [reflexivity|exact D]].
+  destruct (find1 C_RP q) as [[num [|a t]]|]; try (eexists; split; [reflexivity|exact D]).
+  destruct (parse_u32 num) as [n|]; [|eexists; split; [reflexivity|exact D]].
+  destruct (name_suffix_can_increment n); [|eexists; split; [reflexivity|exact D]].
+  eexists. split; [reflexivity|]. apply label_with_suffix_len.
+  pose proof (dec_length (n + name_suffix_step)). rewrite !app_length. simpl. lia.
 Qed.
 
-Lemma split_first_rest_shape s : starts_dot_or_empty (snd (split_first s)) /\ no_byte C_DOT (fst (split_first s)).
+Lemma hostname_change_fits s :
+  exists nf, hostname_change s = nf ++ snd (split_first_label s) /\ (length nf <= 63)%nat.
 Proof.
-  induction s as [|c s IH]; simpl.
-  - split; [left; reflexivity|constructor].
-  - destruct (c =? C_DOT) eqn:E.
-    + apply N.eqb_eq in E. subst c. simpl. split; [right; exists s; reflexivity|constructor].
-    + destruct (split_first s) as [a r]. simpl in *. destruct IH as [I1 I2]. split; [assumption|].
-      constructor; [apply N.eqb_neq; assumption|assumption].
+  unfold hostname_change. destruct (split_first_label s) as [first rest]. simpl.
+  assert (D : (length (label_with_suffix first [C_HY; 50]) <= 63)%nat)
+    by (apply label_with_suffix_len; simpl; lia).
+  destruct (rsplit1 C_HY first) as [[base num]|]; [|eexists; split; [reflexivity|exact D]].
+  destruct (parse_u32 num) as [n|]; [|eexists; split; [reflexivity|exact D]].
+  destruct (host_suffix_can_increment n); [|eexists; split; [reflexivity|exact D]].
+  eexists. split; [reflexivity|]. apply label_with_suffix_len.
+  pose proof (dec_length (n + host_suffix_step)). rewrite app_length. simpl. lia.
 Qed.
 
-Lemma split_first_join s : fst (split_first s) ++ snd (split_first s) = s.
-Proof.
-  induction s as [|c s IH]; simpl; [reflexivity|].
-  destruct (c =? C_DOT); [reflexivity|]. destruct (split_first s) as [a r]. simpl in *. congruence.
-Qed.
+Lemma rename_fits_both s :
+  (exists nf, name_change s = nf ++ snd (split_first_label s) /\ (length nf <= 63)%nat) /\
+  (exists nf, hostname_change s = nf ++ snd (split_first_label s) /\ (length nf <= 63)%nat).
+Proof. split; [apply name_change_fits|apply hostname_change_fits]. Qed.
 
-(* name_change only ever rewrites the first piece *)
-Lemma name_change_shape s : exists nf, name_change s = nf ++ snd (split_first s).
-Proof.
-  unfold name_change. destruct (split_first s) as [first rest]. simpl.
-  eexists. reflexivity.
-Qed.
-
-Lemma hostname_change_shape s : exists nf, hostname_change s = nf ++ snd (split_first s).
-Proof.
-  unfold hostname_change. destruct (split_first s) as [first rest]. simpl.
-  eexists. reflexivity.
-Qed.
-
-(* A 60-byte instance label becomes a 64-byte label: no longer encodable. *)
-Lemma name_change_overflow_refuted :
-  exists s, first_label_encodable s = true /\ first_label_encodable (name_change s) = false.
-Proof.
-  exists (repeat 110 60 ++ [46; 95; 116; 46; 108; 111; 99; 97; 108; 46]). split; vm_compute; reflexivity.
-Qed.
-
-Lemma hostname_change_overflow_refuted :
-  exists s, first_label_encodable s = true /\ first_label_encodable (hostname_change s) = false.
-Proof.
-  exists (repeat 104 62 ++ [46; 108; 111; 99; 97; 108; 46]). split; vm_compute; reflexivity.
-Qed.
-
-(* An escaped dot in the instance label is taken for a label boundary:
-   "My\.Svc._t._tcp.local." becomes "My\ (2).Svc._t._tcp.local." *)
-Lemma name_change_escaped_dot_refuted :
-  exists s, rename_keeps_rest s (name_change s) = false /\
-            name_change s = [77;121;92;32;40;50;41;46;83;118;99;46;95;116;46;95;116;99;112;46;108;111;99;97;108;46].
-Proof.
-  exists [77;121;92;46;83;118;99;46;95;116;46;95;116;99;112;46;108;111;99;97;108;46].
-  split; vm_compute; reflexivity.
-Qed.
-
-Lemma rename_shape_both s :
-  (exists nf, name_change s = nf ++ snd (split_first s)) /\
-  (exists nf, hostname_change s = nf ++ snd (split_first s)).
-Proof. split; [apply name_change_shape|apply hostname_change_shape]. Qed.
-
-Lemma rename_overflow_both :
-  (exists s, first_label_encodable s = true /\ first_label_encodable (name_change s) = false) /\
-  (exists s, first_label_encodable s = true /\ first_label_encodable (hostname_change s) = false).
-Proof. exact (conj name_change_overflow_refuted hostname_change_overflow_refuted). Qed.
+(* the cases that used to break the name *)
+Lemma rename_former_witnesses :
+  (* 60-byte instance label: the base is shortened, the label stays at 63 bytes *)
+  first_label_encodable (name_change (repeat 110 60 ++ [46; 95; 116; 46; 108; 111; 99; 97; 108; 46])) = true /\
+  rename_keeps_rest (repeat 110 60 ++ [46; 95; 116; 46; 108; 111; 99; 97; 108; 46])
+                    (name_change (repeat 110 60 ++ [46; 95; 116; 46; 108; 111; 99; 97; 108; 46])) = true /\
+  first_label_encodable (hostname_change (repeat 104 62 ++ [46; 108; 111; 99; 97; 108; 46])) = true /\
+  (* "My\.Svc._t._tcp.local." -> "My\.Svc (2)._t._tcp.local." *)
+  name_change [77;121;92;46;83;118;99;46;95;116;46;95;116;99;112;46;108;111;99;97;108;46]
+  = [77;121;92;46;83;118;99;32;40;50;41;46;95;116;46;95;116;99;112;46;108;111;99;97;108;46].
+Proof. repeat split; vm_compute; reflexivity. Qed.
